@@ -159,6 +159,84 @@ Section Codec.
     intros Hv Heq. unfold recv_all. apply recv_all_fuel_ok; auto; cbn [length]; lia.
   Qed.
 
+  (* ------------------------------------------------------------ a consumer that polls and cancels *)
+  (* with only part of the stream there yet, a call either returns the next message
+     or is left waiting having moved every queued chunk into temp *)
+  Lemma recv_loop_prefix : forall queued temp m R fut,
+    valid m -> temp ++ concat queued ++ fut = enc m ++ R ->
+    (length temp < length (enc m))%nat ->
+    (exists t cs, recv_loop dec temp queued = Got m t cs /\ t ++ concat cs ++ fut = R) \/
+    (recv_loop dec temp queued = Waiting (temp ++ concat queued) /\
+     (length (temp ++ concat queued) < length (enc m))%nat).
+  Proof.
+    induction queued as [|c cs IH]; intros temp m R fut Hv Heq Hlt.
+    - right. cbn. rewrite app_nil_r. auto.
+    - cbn [concat] in Heq. rewrite <- app_assoc in Heq. rewrite app_assoc in Heq.
+      cbn [recv_loop]. unfold try_decode_message.
+      destruct (dec_on_stream m (temp ++ c) (concat cs ++ fut) R Hv Heq) as [[Hl Hd]|[r' [Hb [Hd Hr]]]].
+      + rewrite Hd. destruct (IH (temp ++ c) m R fut Hv Heq Hl) as [[t [cs' [H1 H2]]]|[H1 H2]].
+        * left. exists t, cs'. auto.
+        * right. cbn [concat]. rewrite app_assoc. auto.
+      + rewrite Hd. left. exists r', cs. rewrite Hb at 1. rewrite skipn_length_app. auto.
+  Qed.
+
+  Lemma recv_full_msg_prefix temp queued m R fut :
+    valid m -> temp ++ concat queued ++ fut = enc m ++ R ->
+    (exists t cs, recv_full_msg dec temp queued = Got m t cs /\ t ++ concat cs ++ fut = R) \/
+    (recv_full_msg dec temp queued = Waiting (temp ++ concat queued)).
+  Proof.
+    intros Hv Heq. pose proof (co_nonempty _ _ _ Hco m Hv) as Hne.
+    destruct temp as [|x temp].
+    - cbn [recv_full_msg].
+      destruct (recv_loop_prefix queued [] m R fut Hv Heq) as [H|[H _]]; auto.
+      destruct (enc m); [congruence|cbn; lia].
+    - cbn [recv_full_msg]. unfold try_decode_message.
+      destruct (dec_on_stream m (x :: temp) (concat queued ++ fut) R Hv Heq) as [[Hl Hd]|[r' [Hb [Hd Hr]]]].
+      + rewrite Hd. destruct (recv_loop_prefix queued (x :: temp) m R fut Hv Heq Hl) as [H|[H _]]; auto.
+      + rewrite Hd. left. exists r', queued. rewrite Hb at 1. rewrite skipn_length_app. auto.
+  Qed.
+
+  (* invariant of the polling consumer: temp ++ queued ++ still-to-arrive = encodings of the
+     messages not yet returned; whatever the polls and cancellations, it ends with a
+     prefix of the messages returned and exactly the rest pending *)
+  Lemma drive_ok : forall evs ms temp queued,
+    Forall valid ms -> temp ++ concat queued ++ concat (arrivals evs) = stream enc ms ->
+    exists out1 ms2 t q, drive dec temp queued evs = (out1, Ok (t, q)) /\
+                         ms = out1 ++ ms2 /\ t ++ concat q = stream enc ms2.
+  Proof.
+    induction evs as [|e r IH]; intros ms temp queued Hv Heq.
+    - cbn in Heq. rewrite app_nil_r in Heq. exists [], ms, temp, queued. auto.
+    - destruct e as [c|].
+      + cbn [drive]. cbn [arrivals flat_map] in Heq. fold (arrivals r) in Heq.
+        apply (IH ms temp (queued ++ [c]) Hv).
+        rewrite concat_app. cbn [concat]. rewrite app_nil_r. cbn [app concat] in Heq.
+        rewrite <- app_assoc. exact Heq.
+      + cbn [drive]. cbn [arrivals flat_map app] in Heq. fold (arrivals r) in Heq.
+        destruct ms as [|m ms].
+        * (* nothing left to come: everything is empty *)
+          unfold stream in Heq. cbn in Heq. apply app_eq_nil in Heq as [Ht Hq]. subst temp.
+          apply app_eq_nil in Hq as [Hq Hf].
+          cbn [recv_full_msg]. rewrite recv_loop_all_nil by (now apply concat_all_nil).
+          apply (IH [] [] []); auto.
+        * inversion Hv as [|? ? Hvm Hvms]; subst.
+          unfold stream in Heq. cbn [map concat] in Heq. fold (stream enc ms) in Heq.
+          destruct (recv_full_msg_prefix temp queued m (stream enc ms) (concat (arrivals r)) Hvm Heq)
+            as [[t [cs [H1 H2]]]|H1].
+          -- rewrite H1. destruct (IH ms t cs Hvms H2) as [out1 [ms2 [t' [q' [E1 [E2 E3]]]]]].
+             rewrite E1. exists (m :: out1), ms2, t', q'. subst ms. auto.
+          -- rewrite H1. apply (IH (m :: ms) (temp ++ concat queued) []); auto.
+             cbn [concat app]. rewrite <- app_assoc. exact Heq.
+  Qed.
+
+  Lemma drive_then_wait_ok ms evs :
+    Forall valid ms -> concat (arrivals evs) = stream enc ms -> drive_then_wait dec evs = (ms, Ok []).
+  Proof.
+    intros Hv Heq. unfold drive_then_wait.
+    destruct (drive_ok evs ms [] [] Hv Heq) as [out1 [ms2 [t [q [E1 [E2 E3]]]]]].
+    rewrite E1. subst ms. apply Forall_app in Hv as [_ Hv2].
+    rewrite (recv_all_fuel_ok ms2 _ t q Hv2 E3) by lia. reflexivity.
+  Qed.
+
   (* sender side of the old stack + receiver *)
   Lemma send_recv_ok ms :
     Forall valid ms -> recv_all dec (concat (map (send_msg_chunks enc) ms)) = (ms, Ok []).
